@@ -153,6 +153,33 @@ func vHavocFields(p interface{}, name string, skip string) {
 	}
 }
 
+// vMapU16U8: a non-nil map with at most n entries (n candidate keys with
+// presence bits name.p<i>, keys name.k<i>, values name.v<i>).
+func vMapU16U8(name string, n int) map[uint16]uint8 {
+	m := map[uint16]uint8{}
+	for i := 0; i < n; i++ {
+		k := uint16(vVal(fmt.Sprintf("%s.k%d", name, i)))
+		if vVal(fmt.Sprintf("%s.p%d", name, i)) != 0 {
+			m[k] = uint8(vVal(fmt.Sprintf("%s.v%d", name, i)))
+		} else if _, ok := m[k]; ok {
+			// an earlier candidate with the same key keeps its presence; the
+			// value of the latest candidate wins (matches the engine's encoding)
+			m[k] = uint8(vVal(fmt.Sprintf("%s.v%d", name, i)))
+		}
+	}
+	return m
+}
+
+func vMapU16Set(name string, n int) map[uint16]struct{} {
+	m := map[uint16]struct{}{}
+	for i := 0; i < n; i++ {
+		if vVal(fmt.Sprintf("%s.p%d", name, i)) != 0 {
+			m[uint16(vVal(fmt.Sprintf("%s.k%d", name, i)))] = struct{}{}
+		}
+	}
+	return m
+}
+
 type vUnmetAssumption struct{}
 
 func vAssume(c bool) {
